@@ -329,7 +329,9 @@ def badenc_form(body, rng):
                        'n=é'.encode('latin-1')])
 
 
-def chunkings(n, rng, k):
+def chunkings(n, rng, k, stack='asgi'):
+    if stack == 'wsgi':
+        return [None]        # a PEP 3333 wsgi.input is a blocking file-like: read(n) is never short before EOF
     out = [None]
     pool = [[1], [2], [3, 1], [n // 2] if n > 1 else [1], [max(1, n - 1)], [0, 1], [7], [n], [n + 5]]
     rng.shuffle(pool)
@@ -374,6 +376,8 @@ def run(ctx):
                        'whether the first access touches the stream for an empty body is not demanded; later accesses must not',
                        'identity of a re-raised cached error is model detail (D); its kind and status are demanded (P)',
                        'a 415 for an unsupported content type is raised before anything is cached (every access raises it anew)',
+                       'chunkings are exercised on ASGI receive events (including empty events); a PEP 3333 wsgi.input is a '
+                       'blocking file-like whose read(n) is never short before EOF (short raw reads are C07 territory)',
                        'truncated form bodies have no defined value: a mapping or a malformed error are both accepted (random leg only)']
 
     # ---- leg M ----------------------------------------------------------------------------------
@@ -397,7 +401,7 @@ def run(ctx):
     docs.sort(key=digest)
     forms.sort(key=digest)
     H = Harness()
-    nchunk = ctx.pick(2, 5)
+    nchunk = ctx.pick(3, 6)
     ndoc = nform = 0
     replays = 0
     rt_docs = set()
@@ -436,7 +440,7 @@ def run(ctx):
         # "the same content type": what the rendering app sent (unless this case is about another one)
         send_ct = ctype if (handler == 'none' or ctk == 'none' or bk != 'valid') else sct
         calls = [(w['op'], w['d']) for w in b['ev']]
-        for ch in chunkings(len(body), rng, nchunk):
+        for ch in chunkings(len(body), rng, nchunk, stack):
             case = dict(case0, body=list(body), chunks=ch, content_type=send_ct)
             evs, wire = H.request(stack, send_ct, body, ch, calls, expect, has_expect)
             replays += 1
@@ -473,7 +477,7 @@ def run(ctx):
             if err:
                 ctx.violation('P:serialize', case, err)
                 continue
-            chs = chunkings(len(sbody), rng, ctx.pick(2, 4))
+            chs = chunkings(len(sbody), rng, ctx.pick(3, 6), qstack)
             for ch in chs:
                 evs, wire = H.request(qstack, None if ctk == 'none' else sct, sbody, ch, [('get', False), ('media', False)], doc, True)
                 nrt += 1
@@ -590,8 +594,8 @@ def leg_b(ctx, H):
         L = len(body)
         ch = rng.choice((None, [1], [2], [rng.randint(1, L + 1)], [rng.randint(0, 3) for _ in range(rng.randint(1, 4))] + [1],
                          [L], [L + 3], [max(1, L // 3)]))
-        if stack == 'wsgi' and ch is not None:
-            ch = [c for c in ch if c > 0] or [1]
+        if stack == 'wsgi':
+            ch = None
         evs, wire = H.request(stack, ctype, body, ch, calls, expect, has_expect, reraise=rng.random() < 0.8)
         case.update(body=list(body), body_kind=bk, chunks=ch, calls=calls)
         ctx.case(case, nontrivial=len(calls) >= 2 or bk != 'valid', key=i)
